@@ -24,6 +24,10 @@ const MAX_PAUSE: u64 = 5_000_000_000;
 pub struct C08Sc {
     /// the base scenario; its `client.cuts` and `wplan` are the variant's fault plan
     pub sc: ConnScenario,
+    /// listener mode: the same clients through a real `Listener` with PROXY protocol, whose byte streams (header
+    /// included) are cut and delayed; the reference is the same scenario uncut
+    #[serde(default)]
+    pub listener: Option<Box<crate::net::NetScenario>>,
 }
 
 fn masked_packets(out: &ConnOutcome) -> Vec<Value> {
@@ -270,7 +274,7 @@ fn generate(rng: &mut Rng, index: u64) -> C08Sc {
     }
     events.sort_by_key(|e| e.1);
     if frames.is_empty() {
-        return C08Sc { sc };
+        return C08Sc { sc, listener: None };
     }
     let mode = index % 4;
     sc.client.coalesce = rng.chance(1, 2);
@@ -380,7 +384,98 @@ fn generate(rng: &mut Rng, index: u64) -> C08Sc {
         base.wplan.clear();
         sc.prelude = vec![abrupt_prelude(rng, &base)];
     }
-    C08Sc { sc }
+    C08Sc { sc, listener: None }
+}
+
+fn gen_listener(rng: &mut Rng) -> crate::net::NetScenario {
+    use crate::net::{NetCfg, NetClient, NetScenario};
+    use super::c15::{v1_header, v2_header};
+    let proxy = *rng.pick(&[(true, true), (true, true), (true, false), (false, true)]);
+    let services = Services {
+        discovery: Script::always(Some(*rng.pick(&[0u64, 0, ms(300)])), DiscRes::Targets(vec![gen_target(rng, 0)])),
+        ..Default::default()
+    };
+    let n = rng.range(1, 2);
+    let clients = (0..n)
+        .map(|i| {
+            let intent = *rng.pick(&[1, 1, 2, 3]);
+            let mut spec = ClientSpec::base(rng, intent);
+            let src: std::net::SocketAddr = format!("198.51.100.{}:{}", 70 + i, 52_000 + i).parse().unwrap();
+            let dst: std::net::SocketAddr = "192.0.2.200:25565".parse().unwrap();
+            let h = if proxy.0 && (!proxy.1 || rng.chance(1, 2)) { v1_header(&src, &dst) } else { v2_header(&src, &dst, false) };
+            let hl = h.len() as u64;
+            spec.preamble = Some(h);
+            spec.close_on_end_ns = Some(0);
+            spec.coalesce = rng.chance(1, 2);
+            // cuts anywhere in the header and the first frames
+            for _ in 0..rng.range(1, 4) {
+                let at = if rng.chance(2, 3) { rng.range(1, hl - 1) } else { rng.range(hl, hl + 60) };
+                let gate = match rng.below(4) {
+                    0 => Gate::Now,
+                    1 => Gate::Delay { ns: 1_000 },
+                    2 => Gate::Delay { ns: ms(rng.range(1, 900)) },
+                    _ => Gate::Delay { ns: ms(rng.range(1000, 4000)) },
+                };
+                spec.cuts.push(Cut { at, gate, spurious: rng.below(2) as u8 });
+            }
+            NetClient { connect_at_ns: ms(rng.range(0, 2000)), peer: format!("10.3.0.{}:{}", 1 + i, 44_000 + i), spec, wplan: vec![] }
+        })
+        .collect();
+    NetScenario {
+        seed: rng.next_u64(),
+        cfg: NetCfg { timeout_ns: secs(60), proxy: Some(proxy), ..Default::default() },
+        wall: Default::default(),
+        services,
+        clients,
+        stop_at_ns: None,
+        stop_before: false,
+        yields_before_stop: 0,
+        cap_ns: secs(120),
+    }
+}
+
+/// Listener mode: what each client is sent must not depend on how its bytes (PROXY header included) were cut.
+fn run_listener(n: &crate::net::NetScenario) -> RunReport {
+    let c = &n.cfg;
+    if !net_domain_ok(n) || c.use_start || c.proxy.is_none() || c.limiter.is_some() || n.stop_at_ns.is_some() || c.timeout_ns < secs(30) || n.cap_ns < secs(60) || n.clients.is_empty()
+        || !matches!(&n.services.discovery.default.res, DiscRes::Targets(t) if !t.is_empty())
+        || n.clients.iter().any(|k| {
+            let total: u64 = k.spec.cuts.iter().map(|x| match &x.gate { Gate::Now => 0, Gate::Delay { ns } => *ns, _ => MAX_PAUSE * 100 }).sum();
+            !matches!(k.spec.intent, 1..=3) || k.spec.script.is_some() || !k.spec.mutations.is_empty() || !k.wplan.is_empty() || k.spec.preamble.is_none() || k.spec.mute_after.is_some() || k.spec.close_after.is_some() || !k.spec.send_info || !matches!(k.spec.enc, crate::client::EncVariant::Honest) || k.spec.shared_secret.len() != 16 || k.spec.protocol <= 0 || total > secs(20)
+        })
+    {
+        return RunReport::default();
+    }
+    let mut plain = n.clone();
+    for k in &mut plain.clients {
+        k.spec.cuts.clear();
+        k.spec.coalesce = false;
+    }
+    let refo = crate::net::run_net(&plain);
+    let var = crate::net::run_net(n);
+    let mut rep = RunReport { runs: 2, trace_hash: var.trace_hash(), full_hash: var.full_hash().rotate_left(13) ^ refo.full_hash(), sim_ns: var.end_ns + refo.end_ns, nontrivial: true, ..Default::default() };
+    rep.merge_counts(&var.faults, &var.probes);
+    *rep.faults.entry("proxy_header_cut_through_a_listener".into()).or_insert(0) += 1;
+    for o in [&refo, &var] {
+        if !o.panics.is_empty() {
+            rep.violate("no_panic", format!("panicked: {}", o.panics[0].replace('\n', " ")));
+            return rep;
+        }
+    }
+    for (i, (a, b)) in refo.clients.iter().zip(var.clients.iter()).enumerate() {
+        if a.view.undecodable.is_some() || a.view.packets.is_empty() {
+            continue; // the uncut client itself is not served: nothing to compare against
+        }
+        if let Some(u) = &b.view.undecodable {
+            rep.violate("frames_arrive_complete", format!("client {i}: {u}"));
+            continue;
+        }
+        let kinds = |v: &crate::client::ClientView| v.packets.iter().filter(|p| p.kind != "KeepAlive").map(|p| (p.kind.clone(), p.len)).collect::<Vec<_>>();
+        if kinds(&a.view) != kinds(&b.view) {
+            rep.violate("same_packets", format!("client {i} (PROXY header and frames cut {:?}): uncut it is sent {:?}, cut {:?}", n.clients[i].spec.cuts.iter().map(|x| x.at).collect::<Vec<_>>(), a.view.kinds(), b.view.kinds()));
+        }
+    }
+    rep
 }
 
 pub fn compare(sc: &ConnScenario, refo: &ConnOutcome, var: &ConnOutcome, rep: &mut RunReport) {
@@ -490,9 +585,18 @@ impl Check for C08 {
         }
     }
     fn generate(&self, rng: &mut Rng, index: u64, _tier: Tier) -> C08Sc {
+        if index % 12 == 11 {
+            let mut c = generate(rng, 0);
+            c.sc.prelude.clear();
+            c.listener = Some(Box::new(gen_listener(rng)));
+            return c;
+        }
         generate(rng, index)
     }
     fn execute(&self, c: &C08Sc) -> RunReport {
+        if let Some(n) = &c.listener {
+            return run_listener(n);
+        }
         let sc = &c.sc;
         if !conn_domain_ok(sc) || sc.cap_ns < secs(600) || sc.client.script.is_some() || !sc.client.mutations.is_empty() || !matches!(sc.client.enc, crate::client::EncVariant::Honest) || !sc.client.ka.is_empty() || !matches!(sc.client.ka_default, crate::client::KaPolicy::Prompt | crate::client::KaPolicy::Never) {
             return RunReport::default();
